@@ -61,6 +61,7 @@ func consultsInSends(w *core.World, r *core.Report, rule string, fn *ssa.Functio
 
 const kLVGHP = "tree.LeafVariants.GetHighestPrecedence"
 
+
 func c04(w *core.World, r *core.Report) {
 	setWordBits(w)
 	validate := w.Func("pkg/tree", "sharedEntryAttributes", "Validate")
@@ -339,6 +340,44 @@ func c04(w *core.World, r *core.Report) {
 		}
 		r.Check(!isConst, "LOOKAHEAD", core.Site(loadHigh, "count=%d", cval), w.InstrPos(c), "alternatives are read with a constant depth: values that become active only because higher-precedence intents are removed are not all in the tree that is validated")
 	}
+
+	// ---- MERGED-BEFORE-VALIDATE
+	r.Rule("MERGED-BEFORE-VALIDATE", 6, "the tree that is validated is the merged result: in lowlevelTransactionSet the alternatives of other intents (loadIntendedStoreHighestPrio), the running config (populateTreeWithRunning) and the last FinishInsertionPhase all execute before RootEntry.Validate on every path, and no call that adds content to the tree (AddCacheUpdatesRecursive, LoadIntendedStoreOwnerData, the two loaders) can execute after it; in replaceIntent the replace content is added before Validate. Decides: the verdict is about the resulting configuration, not about the request in isolation.")
+	if low := w.Func("pkg/datastore", "Datastore", "lowlevelTransactionSet"); low != nil {
+		V := firstCall(low, "tree.RootEntry.Validate")
+		H := firstCall(low, "datastore.loadIntendedStoreHighestPrio")
+		R := firstCall(low, "datastore.populateTreeWithRunning")
+		checkOrder(w, r, "MERGED-BEFORE-VALIDATE", low, H, V, "alternatives loaded before Validate")
+		checkOrder(w, r, "MERGED-BEFORE-VALIDATE", low, R, V, "running loaded before Validate")
+		if V != nil {
+			fins := core.CallsTo(low, "tree.sharedEntryAttributes.FinishInsertionPhase", "tree.RootEntry.FinishInsertionPhase")
+			okFin := false
+			for _, fc := range fins {
+				if core.InstrBefore(fc, V) && (H == nil || core.InstrBefore(H, fc)) && (R == nil || core.InstrBefore(R, fc)) {
+					okFin = true
+				}
+			}
+			r.Check(okFin, "MERGED-BEFORE-VALIDATE", core.Site(low, "FinishInsertionPhase between the loads and Validate"), w.InstrPos(V), "choices are resolved and caches reset on the complete tree before it is validated")
+			late := ""
+			for _, c := range core.CallsTo(low, "tree.RootEntry.AddCacheUpdatesRecursive", "tree.RootEntry.LoadIntendedStoreOwnerData", "datastore.loadIntendedStoreHighestPrio", "datastore.populateTreeWithRunning", "tree.RootEntry.ImportConfig") {
+				if core.CanFollow(V, c) {
+					late = core.CalleeKey(c)
+				}
+			}
+			r.Check(late == "", "MERGED-BEFORE-VALIDATE", core.Site(low, "nothing added after Validate"), w.InstrPos(V), "content is added to the tree after it was validated: "+late)
+		}
+	}
+	if rep := w.Func("pkg/datastore", "Datastore", "replaceIntent"); rep != nil {
+		V := firstCall(rep, "tree.RootEntry.Validate")
+		A := firstCall(rep, "tree.RootEntry.AddCacheUpdatesRecursive", "tree.RootEntry.ImportConfig")
+		F := firstCall(rep, "tree.sharedEntryAttributes.FinishInsertionPhase", "tree.RootEntry.FinishInsertionPhase")
+		checkOrder(w, r, "MERGED-BEFORE-VALIDATE", rep, A, V, "replace content added before Validate")
+		checkOrder(w, r, "MERGED-BEFORE-VALIDATE", rep, F, V, "FinishInsertionPhase before Validate (replace)")
+	}
+
+	// ---- NO-GLOBAL-STATE
+	r.Rule("NO-GLOBAL-STATE", 1, "the validators (everything reachable from sharedEntryAttributes.Validate) use no package-level variable of the repository other than the frozen read-only ones: the verdict for one entry must not depend on what was validated before (another list entry, another transaction) through a process-wide cache or a shared parsed object.")
+	ruleNoGlobalState(w, r, "NO-GLOBAL-STATE", validate)
 
 	// ---- RESULTS
 	r.Rule("RESULTS", 4, "verdict plumbing: ValidationResults.HasErrors is true iff some intent has errors (depends on the errors slices), ValidationResultIntent.AddEntry files errors as errors and warnings as warnings, RootEntry.Validate adds every entry received until the channel is closed.")
